@@ -40,6 +40,7 @@ func (c *Ctx) remoteHaltFamily(prefix string) {
 	store := func(in ssa.Instruction) bool {
 		return p.Calls("sync/atomic.(*Value).Store")(in) && field(in)
 	}
+	c.ExpectAll(prefix+"/acquire-stores-granted-pointer", c.CallArgs(aq, store, 1), pat("litefs.Client.AcquireHaltLock(@@)#0"), 1, "the reference stored is the pointer the client returned (the one the failure handler later swaps out by identity)", "storing a copy makes the identity-based clean-up a no-op: after a failed acquisition the node stays writable")
 	c.Before(prefix+"/acquire-store-after-grant", aq, store, p.PlainCalls("litefs.Client.AcquireHaltLock"), 1, "the reference is stored only after the primary granted the lock", "")
 	c.ErrHandled(prefix+"/acquire-grant-error", aq, p.PlainCalls("litefs.Client.AcquireHaltLock"), store, 1, "a refused grant never stores a reference", "")
 	cleanup := c.anonWith(aq, field)
